@@ -102,4 +102,22 @@ def containsTop (a b : Expr Atom) : Bool :=
   | .atom _, .node _ _ => false
   | .node o ts, y => containsE (.node o ts) y
 
+/-- `Licensing.is_equivalent(text1, text2)` / `Licensing.contains(text1, text2)` on strings: each side is
+    parsed (default flags) and simplified; an empty or blank string is `None`, which equals only `None`
+    and which nothing contains; `none`: an ExpressionError is raised (`contains` of something in `None`
+    raises TypeError, also `none` here) -/
+def equivText (c : Cls) (T : Table) (s1 s2 : Str) : Option Bool :=
+  match parseFull c T false false false s1, parseFull c T false false false s2 with
+  | .ok a, .ok b => some (equivE a b)
+  | .blank, .blank => some true
+  | .blank, .ok _ => some false
+  | .ok _, .blank => some false
+  | _, _ => none
+
+def containsText (c : Cls) (T : Table) (s1 s2 : Str) : Option Bool :=
+  match parseFull c T false false false s1, parseFull c T false false false s2 with
+  | .ok a, .ok b => some (containsTop a b)
+  | .ok _, .blank => some false
+  | _, _ => none
+
 end LE
